@@ -119,10 +119,15 @@ Definition pd_hists (n : nat) (cx cy : vec Z) : list Q * list Q * list Q :=
 (* H = -sum(P log P), VIn = (2Hxy - Hx - Hy)/log n, MIn = 2(Hx + Hy - Hxy)/(Hx + Hy), for a given log *)
 Definition entropy (log : Q -> Q) (n : nat) (h : list Q) : Q :=
   - fold_right Qplus 0 (map (fun cnt => let p := cnt / inject_Z (Z.of_nat n) in p * log p) h).
-Definition partition_distance (log : Q -> Q) (n : nat) (cx cy : vec Z) : Q * Q :=
+Definition pd_general (log : Q -> Q) (n : nat) (cx cy : vec Z) : Q * Q :=
   let '(hx, hy, hxy) := pd_hists n cx cy in
   let Hx := entropy log n hx in let Hy := entropy log n hy in let Hxy := entropy log n hxy in
   ((2 * Hxy - Hx - Hy) / log (inject_Z (Z.of_nat n)), 2 * (Hx + Hy - Hxy) / (Hx + Hy)).
+(* fix b5787bf: if n == 1 or (np.max(cx) == 1 and np.max(cy) == 1): return 0.0, 1.0   (cx, cy already relabelled) *)
+Definition pd_trivial (n : nat) (cx cy : vec Z) : bool :=
+  (Nat.eqb n 1 || (Nat.eqb (vmax n (relabel n cx)) 1 && Nat.eqb (vmax n (relabel n cy)) 1))%bool.
+Definition partition_distance (log : Q -> Q) (n : nat) (cx cy : vec Z) : Q * Q :=
+  if pd_trivial n cx cy then (0, 1) else pd_general log n cx cy.
 
 (* ---------- ci2ls / ls2ci ---------- *)
 Definition ci2ls (n : nat) (ci : vec Z) : list (list nat) :=
@@ -158,9 +163,10 @@ Definition run_mus (rows : list (list Q)) (ci : list Z) (qt : nat) : Q :=
 (* cis given as a list of partitions (columns) *)
 Definition run_agreement (n : nat) (cols : list (list Z)) : list (list Q) :=
   to_rows n n (fun i j => Qred (agreement n (length cols) (fun p => of_list 0%Z (nth p cols [])) i j)).
-Definition run_pd (cx cy : list Z) : list Q * list Q * list Q :=
+Definition run_pd (cx cy : list Z) : bool * (list Q * list Q * list Q) :=
   let n := length cx in
-  let '(a, b, c) := pd_hists n (of_list 0%Z cx) (of_list 0%Z cy) in (map Qred a, map Qred b, map Qred c).
+  let '(a, b, c) := pd_hists n (of_list 0%Z cx) (of_list 0%Z cy) in
+  (pd_trivial n (of_list 0%Z cx) (of_list 0%Z cy), (map Qred a, map Qred b, map Qred c)).
 Definition run_ci2ls (ci : list Z) : list (list nat) := ci2ls (length ci) (of_list 0%Z ci).
 Definition run_ls2ci (ls : list (list nat)) : list nat :=
   to_list (fold_right plus 0%nat (map (@length nat) ls)) (ls2ci ls).
